@@ -508,6 +508,42 @@ Proof.
     + destruct Hshape as (_ & _ & -> & -> & _). split; [eauto | eexists; rewrite <- !app_assoc; reflexivity].
 Qed.
 
+(** ---- pass 2 never touches the labels (nor .equ / #define tables): every reference reads what pass 1 left ---- *)
+Lemma pass2_item_labels fuel t c cur out ci c' cur' out' :
+  pass2_item fuel t (c, cur, out) ci = Ok (c', cur', out') -> labels c' = labels c /\ equs c' = equs c /\ defines c' = defines c.
+Proof.
+  destruct ci as [cp it]. unfold pass2_item. intros H.
+  destruct it as [z | k ops | a e | a | a e | ops | op args | lab]; cbn [fst] in H.
+  all: repeat match type of H with
+              | bind ?m _ = Ok _ => apply bind_ok in H; destruct H as (? & _ & H)
+              | (if ?x then _ else _) = Ok _ => destruct x; try discriminate
+              | (match ?x with _ => _ end) = Ok _ => destruct x; try discriminate
+              end.
+  all: try discriminate.
+  all: injection H as <- <- <-; repeat split; reflexivity.
+Qed.
+Lemma p2fold_labels fuel t its c cur out c' cur' out' :
+  p2fold fuel t its (Ok (c, cur, out)) = Ok (c', cur', out') -> labels c' = labels c /\ equs c' = equs c /\ defines c' = defines c.
+Proof.
+  revert c cur out. induction its as [|ci its IH]; intros c cur out H; unfold p2fold in H; cbn [fold_left] in H.
+  - injection H as <- <- <-. repeat split; reflexivity.
+  - cbn [bind] in H. pose proof (fold_bind_ok _ _ _ _ H) as ([[ca cura] outa] & Ea). rewrite Ea in H.
+    apply IH in H. pose proof (pass2_item_labels _ _ _ _ _ _ _ _ _ Ea) as (A & B & D). destruct H as (A' & B' & D').
+    repeat split; congruence.
+Qed.
+Definition p2ctx (s : p2state) : ctx := let '(c, _, _) := s in c.
+Lemma p2steps_labels fuel l : forall s s', fold_left (p2step fuel) l (Ok s) = Ok s' ->
+  labels (p2ctx s') = labels (p2ctx s) /\ equs (p2ctx s') = equs (p2ctx s) /\ defines (p2ctx s') = defines (p2ctx s).
+Proof.
+  induction l as [|sg l IH]; intros s s' H; cbn [fold_left] in H.
+  - injection H as <-. repeat split; reflexivity.
+  - pose proof (p2steps_ok _ _ _ _ H) as (s1 & E1). rewrite E1 in H. apply IH in H.
+    destruct s as [[c0 code] eep]. unfold p2step in E1. cbn [bind] in E1. apply bind_ok in E1.
+    destruct E1 as ([[c1 fin] frag] & Hf & E1). apply p2fold_labels in Hf.
+    assert (p2ctx s1 = c1) by (destruct (seg_t sg); injection E1 as <-; reflexivity).
+    cbn [p2ctx]. destruct H as (A & B & D). destruct Hf as (A' & B' & D'). repeat split; congruence.
+Qed.
+
 (** ---- the layout theorem: every code / eeprom segment of the program lands at its address ---- *)
 Theorem layout fuel c segs r1 r2 :
   pass1 c segs = Ok r1 -> pass2 fuel (p1_ctx r1) (p1_segs r1) = Ok r2 -> Forall plain_seg segs ->
@@ -519,7 +555,8 @@ Theorem layout fuel c segs r1 r2 :
     p2fold fuel (seg_t sg') (items sg') (Ok (c2, address sg', [])) = Ok (c2', fin, frag) /\
     (match seg_t sg with SCode => p2_code r2 | _ => p2_eeprom r2 end) = (before ++ frag ++ after)%list /\
     N.of_nat (length before) = unit_of (seg_t sg) * address sg' /\
-    N.of_nat (length frag) = unit_of (seg_t sg) * (fin - address sg').
+    N.of_nat (length frag) = unit_of (seg_t sg) * (fin - address sg') /\
+    (labels c2 = labels (p1_ctx r1) /\ equs c2 = equs (p1_ctx r1) /\ defines c2 = defines (p1_ctx r1)) /\ dev c2 = dev c.
 Proof.
   intros H1 H2 Hp Bf Be. rewrite pass1_unfold in H1. rewrite pass2_unfold in H2.
   apply bind_ok in H1. destruct H1 as ([[[[c' co'] dofs'] eo'] out'] & F1 & H1).
@@ -551,6 +588,8 @@ Proof.
   destruct (Hstep _ _ _ _ _ _ Dx Lca Lea B5 B6 E2b) as (D2b & Lcb & Leb & c2x & fin & frag & Hf & Hshape).
   assert (Dy : dev c2b = dev cb) by congruence.
   destruct (Hpost _ _ _ _ _ _ Dy Lcb Leb B1 B2 F2) as (_ & _ & _ & (x & Hx) & (y & Hy)).
+  assert (Hctx : (labels c2a = labels c' /\ equs c2a = equs c' /\ defines c2a = defines c') /\ dev c2a = dev c).
+  { split; [exact (p2steps_labels fuel _ _ _ E2a) | congruence]. }
   exists sg', fin, c2a, c2x, frag.
   assert (Hnth : nth_error (npre ++ sg' :: npost) (length pre) = Some sg').
   { rewrite nth_error_app2 by lia. rewrite Lpre, Nat.sub_diag. reflexivity. }
@@ -559,12 +598,12 @@ Proof.
     exists (codea ++ repeat 0 (N.to_nat (2 * (address sg' - coa))))%list, x.
     split; [exact Hnth|]. split; [exact Hst|]. split; [exact Haddr|]. split; [exact Hf|].
     split; [rewrite Hx, <- !app_assoc; reflexivity|].
-    split; [rewrite app_length, repeat_length, Nat2N.inj_add, Lca, N2Nat.id; cbn [unit_of]; lia | exact Lf].
+    split; [rewrite app_length, repeat_length, Nat2N.inj_add, Lca, N2Nat.id; cbn [unit_of]; lia |]. split; [exact Lf | exact Hctx].
   - destruct Hshape as (Hle & -> & -> & -> & Lf).
     exists (eepa ++ repeat 0 (N.to_nat (address sg' - eoa)))%list, y.
     split; [exact Hnth|]. split; [exact Hst|]. split; [exact Haddr|]. split; [exact Hf|].
     split; [rewrite Hy, <- !app_assoc; reflexivity|].
-    split; [rewrite app_length, repeat_length, Nat2N.inj_add, Lea, N2Nat.id; cbn [unit_of]; lia | cbn [unit_of]; lia].
+    split; [rewrite app_length, repeat_length, Nat2N.inj_add, Lea, N2Nat.id; cbn [unit_of]; lia |]. split; [cbn [unit_of]; lia | exact Hctx].
 Qed.
 
 (** ---- labels: the value of a label is the position of what follows it ---- *)
